@@ -102,7 +102,11 @@ func (p *PacketProcessor) ProcessPacketData(data []byte, _ *gopacket.CaptureInfo
 }
 
 func validPacket(decoded []gopacket.LayerType) bool {
-	return len(decoded) == 3 || (len(decoded) == 2 && decoded[0] == layers.LayerTypeIPv4)
+	n := len(decoded)
+	if n < 2 || decoded[n-1] != layers.LayerTypeICMPv4 || decoded[n-2] != layers.LayerTypeIPv4 {
+		return false
+	}
+	return n == 2 || (n == 3 && decoded[0] == layers.LayerTypeEthernet)
 }
 
 type PacketFiller struct {
